@@ -170,6 +170,49 @@ MUTANTS = [
     ("path-patience-off-by-one", "gemclus/sparse/_base_sparse.py", "        while i < clf.max_iter and patience < max_patience:",
      "        while i < clf.max_iter and patience <= max_patience:", ["C07"]),
     ("path-initial-fit-keeps-alpha", "gemclus/sparse/_base_sparse.py", "    clf.set_params(alpha=0)\n", "    clf.set_params(alpha=alpha * 0.5)\n", ["C07"]),
+    ("douglas-unsorted-cuts", "gemclus/tree/douglas.py", "        sorted_cut_points = cut_points[order]", "        sorted_cut_points = cut_points", ["C15"]),
+    ("douglas-mask-position-index", "gemclus/tree/douglas.py",
+     "        leaf_binning = lambda z: self._leaf_binning(X[:, z[0]:z[0] + 1], z[1])\n        cut_iterator = map(leaf_binning, self.cut_points_list_)",
+     "        leaf_binning = lambda kz: self._leaf_binning(X[:, kz[0]:kz[0] + 1], kz[1][1])\n        cut_iterator = map(leaf_binning, enumerate(self.cut_points_list_))",
+     ["C15"]),
+    ("douglas-temperature-inverted", "gemclus/tree/douglas.py", "        return softmax(logits / self.temperature), order",
+     "        return softmax(logits * min(self.temperature, 1 / self.temperature)), order", ["C15"]),
+    ("douglas-active-inclusive", "gemclus/tree/douglas.py",
+     "            if np.any((cut_points > feature.min()) & (cut_points < feature.max())):",
+     "            if np.any((cut_points >= feature.min()) & (cut_points <= feature.max())):", ["C15"]),
+    ("douglas-active-uses-list-position", "gemclus/tree/douglas.py",
+     "        for (feature_index, cut_points) in self.cut_points_list_:\n            feature = X[:, feature_index]",
+     "        for k, (feature_index, cut_points) in enumerate(self.cut_points_list_):\n            feature = X[:, k]", ["C15"]),
+    ("douglas-weights-W-from-zero", "gemclus/tree/douglas.py",
+     "W = np.expand_dims(np.linspace(1, n + 1, n + 1, dtype=np.float64), axis=0)",
+     "W = np.expand_dims(np.linspace(0, n, n + 1, dtype=np.float64) * (n + 1) / max(n, 1), axis=0)", ["C15"]),
+    ("kernelrim-predict-batch-normalised", "gemclus/linear/_linear_geminis.py",
+     "        kernel = self._compute_kernel(X)\n        return self._infer(kernel)",
+     "        kernel = self._compute_kernel(X)\n        return self._infer(kernel - kernel.mean(0) * 1e-3)", ["C18"]),
+    ("mlp-infer-batch-statistic", "gemclus/mlp/_mlp_geminis.py",
+     "        if retain:\n            self.H_ = H\n        return softmax(H @ self.W2_ + self.b2_)",
+     "        if retain:\n            self.H_ = H\n        else:\n            H = H - 1e-3 * H.max(0)\n        return softmax(H @ self.W2_ + self.b2_)", ["C18"]),
+    ("kernelrim-kernel-against-query", "gemclus/linear/_linear_geminis.py",
+     "            kernel = pairwise_kernels(X, self.input_data_, metric=self.base_kernel, **_params)",
+     "            kernel = pairwise_kernels(X, self.input_data_ if len(X) != len(self.input_data_) else X, metric=self.base_kernel, **_params)", ["C18"]),
+    ("kauri-predict-first-row-feature", "gemclus/tree/kauri.py",
+     "            predictions = np.zeros(len(X), dtype=np.int64)\n            predictions[X_left]",
+     "            predictions = np.zeros(len(X), dtype=np.int64)\n            X_left = X_left | (X_left[:1] & (len(X) > 7))\n            X_right = ~X_left\n            predictions[X_left]", ["C18", "C09"]),
+    ("douglas-nan-division-back", "gemclus/tree/douglas.py",
+     "            softmax_grad = np.divide(summed_backprop, self._all_binnings[i], out=np.zeros_like(summed_backprop),\n                                     where=self._all_binnings[i] != 0)",
+     "            softmax_grad = summed_backprop / self._all_binnings[i]", ["C17", "C03"]),
+    ("tv-squeeze-back", "gemclus/gemini/_fdivergences.py",
+     "gradients = np.squeeze(extended_p_y_x_grad, axis=1) + np.squeeze(extended_p_y_grad, axis=2).mean(0)",
+     "gradients = np.squeeze(extended_p_y_x_grad) + np.squeeze(extended_p_y_grad).mean(0)", ["C17", "C04"]),
+    ("prox-zero-row-division", "gemclus/sparse/_prox_grad.py",
+     "W_star = np.maximum(W_norms - alpha, 0) * W / np.where(W_norms == 0, 1, W_norms)",
+     "W_star = np.maximum(W_norms - alpha, 0) * W / W_norms", ["C17", "C05"]),
+    ("kl-log-unclipped", "gemclus/gemini/_fdivergences.py",
+     "        log_p_y_x = np.log(p_y_x)\n        log_p_y = np.log(p_y)",
+     "        log_p_y_x = np.log(y_pred)\n        log_p_y = np.log(p_y)", ["C17", "C13"]),
+    ("hellinger-grad-unclipped-division", "gemclus/gemini/_fdivergences.py",
+     "        cluster_wise_estimates = np.sqrt(p_y_x * p_y)\n        estimates = np.sum(cluster_wise_estimates, axis=1)",
+     "        cluster_wise_estimates = np.sqrt(y_pred * p_y)\n        estimates = np.sum(cluster_wise_estimates, axis=1)", ["C17", "C13"]),
 ]
 
 
